@@ -69,7 +69,9 @@ class Model:
                 continue
             if isinstance(f, MapFrame):
                 if name in f.keys:
-                    return self.invoke('%s.%s' % (f.name, name))
+                    v = self.invoke('%s.%s' % (f.name, name))
+                    if v is not E.UNDEF:
+                        return v
                 continue
             if name in f:
                 return f[name]
